@@ -60,7 +60,16 @@ func main() {
 			if len(c.Pool) == 0 {
 				continue
 			}
-			hist.GenOps(r, &c, ops, r.IntN(3), true)
+			switch {
+			case i%5 == 4:
+				hist.GenStory(r, &c)
+			case i == 0:
+				c.Methods = hist.MethodPool[:1]
+				c.Pool = hist.GenPool(r, 4+r.IntN(6), true)
+				hist.GenFull(r, &c, ops/2, r.IntN(3))
+			default:
+				hist.GenOps(r, &c, ops, r.IntN(3), true)
+			}
 			check(run, c)
 		}
 	})
